@@ -226,3 +226,99 @@ pub fn no_number_text(rng: &mut Rng, max_len: usize) -> String {
     }
     s
 }
+
+// ---------------------------------------------------------------------------------------------
+// annotator-state workloads (C10, C14, C18)
+// ---------------------------------------------------------------------------------------------
+
+/// French: sentences that hit the `neuf` ambiguity pass on purpose: determiner x (number | filler) x neuf x
+/// (number | filler), several per text.
+pub fn annot_fr(rng: &mut Rng, lex: &Lexicon) -> String {
+    const DET: [&str; 6] = ["un", "le", "du", "l'", "la", "numéro"];
+    const NUMW: [&str; 12] = ["cent", "vingt", "dix", "trente", "mille", "deux", "quatre-vingt", "soixante", "zéro", "cinq", "neuf", "dix-neuf"];
+    let k = 1 + rng.usize(4);
+    let mut parts: Vec<String> = Vec::new();
+    for _ in 0..k {
+        let mut ws: Vec<String> = Vec::new();
+        if rng.chance(2, 3) {
+            ws.push(rng.pick(&lex.fillers).clone());
+        }
+        let det = rng.pick_str(&DET);
+        ws.push(det.to_string());
+        if rng.chance(1, 3) {
+            ws.push(rng.pick(&lex.fillers).clone());
+        }
+        ws.push(if rng.chance(1, 2) { rng.pick_str(&NUMW).to_string() } else { rng.pick(&lex.fillers).clone() });
+        ws.push("neuf".to_string());
+        match rng.below(4) {
+            0 => ws.push(rng.pick_str(&NUMW).to_string()),
+            1 => ws.push(rng.pick(&lex.fillers).clone()),
+            2 => {
+                ws.push("virgule".into());
+                ws.push(rng.pick_str(&NUMW).to_string());
+            }
+            _ => {}
+        }
+        let mut s = String::new();
+        for (i, w) in ws.iter().enumerate() {
+            if i > 0 && !s.ends_with('\'') {
+                s.push(' ');
+            }
+            s.push_str(w);
+        }
+        parts.push(s);
+    }
+    let seps = [" ", ", ", ". ", " et ", " puis ", " ; "];
+    let mut out = String::new();
+    for (i, p) in parts.iter().enumerate() {
+        if i > 0 {
+            out.push_str(rng.pick_str(&seps));
+        }
+        out.push_str(p);
+    }
+    out
+}
+
+/// English: `o` between every combination of number word / filler / punctuation / text boundary.
+pub fn annot_en(rng: &mut Rng, lex: &Lexicon, unicode_ws: bool) -> String {
+    const NUMW: [&str; 14] = ["one", "two", "five", "nine", "ten", "twenty", "thirty", "hundred", "zero", "eight", "sixty", "first", "twenty-one", "thousand"];
+    const PUN: [&str; 6] = [",", ".", ";", "!", "(", "..."];
+    let n = 1 + rng.usize(9);
+    let mut s = String::new();
+    for i in 0..n {
+        let w: String = match rng.below(10) {
+            0..=3 => if rng.chance(1, 8) { "O".to_string() } else { "o".to_string() },
+            4..=6 => rng.pick_str(&NUMW).to_string(),
+            7 => rng.pick_str(&PUN).to_string(),
+            8 => rng.pick(&lex.linking).clone(),
+            _ => rng.pick(&lex.fillers).clone(),
+        };
+        let is_punct = PUN.contains(&w.as_str());
+        if i > 0 && !(is_punct && rng.chance(2, 3)) {
+            if unicode_ws && rng.chance(1, 3) {
+                s.push_str(rng.pick_str(&WS));
+            } else {
+                s.push(' ');
+            }
+        }
+        s.push_str(&w);
+    }
+    s
+}
+
+/// Lower-case noise sentence with many linking words between small numbers (C11 needs those).
+pub fn linking_sentence(rng: &mut Rng, lex: &Lexicon, max_words: usize) -> String {
+    let n = 2 + rng.usize(max_words);
+    let mut ws: Vec<String> = Vec::new();
+    for _ in 0..n {
+        let w = match rng.below(10) {
+            0..=3 => crate::spell::info(lex.code).digits[1 + rng.usize(9)].to_string(),
+            4..=6 => rng.pick(&lex.linking).clone(),
+            7 => rng.pick(&lex.fillers).clone(),
+            8 => rng.pick_str(&PUNCT).to_string(),
+            _ => rng.pick(&lex.number_words).clone(),
+        };
+        ws.push(w);
+    }
+    ws.join(" ")
+}
